@@ -8,17 +8,31 @@ Without pauses the model `GS.PauseResume` IS the requestor model `GS.Requestor`:
 namespace GS.C06
 open GS.Loader GS.Requestor GS.PauseResume
 
-/-- the pause/resume state with no hook pause configured, no pause requested, not paused and no
-    traversal end pending, around the requestor state `r` -/
-def plainOf (r : Requestor.State) : PState := { R := r }
+/-- the pause/resume state around the requestor state `r` with hook pauses configured at the block
+    indices `hs`, no pause requested, not paused and no traversal end pending -/
+def hooked (hs : List Nat) (r : Requestor.State) : PState := { R := r, hookAt := hs }
 
-theorem pauseCheck_plain (r : Requestor.State) (b : Bool) : pauseCheck (plainOf r) b = (false, plainOf r) := by
-  simp [pauseCheck, plainOf]
+/-- no hook pause configured at all -/
+def plainOf (r : Requestor.State) : PState := hooked [] r
 
-theorem afterLoad_plain (r : Requestor.State) (b : Bool) (cont : PState → PState × List Ev) :
-    afterLoad (plainOf r) b cont = cont (plainOf r) := by
+/-- every configured hook pause lies behind: its block index has been passed -/
+def DeadAt (hs : List Nat) (r : Requestor.State) : Prop := ∀ j ∈ hs, j ≤ r.nBlocks
+
+theorem DeadAt.nil (r : Requestor.State) : DeadAt [] r := by intro j hj; cases hj
+
+theorem pauseCheck_dead (hs : List Nat) (r : Requestor.State) (b : Bool) (h : b = true → r.nBlocks ∉ hs) :
+    pauseCheck (hooked hs r) b = (false, hooked hs r) := by
+  cases b with
+  | false => simp [pauseCheck, hooked]
+  | true =>
+    have := h rfl
+    simp [pauseCheck, hooked, this]
+
+theorem afterLoad_dead (hs : List Nat) (r : Requestor.State) (b : Bool) (h : b = true → r.nBlocks ∉ hs)
+    (cont : PState → PState × List Ev) :
+    afterLoad (hooked hs r) b cont = cont (hooked hs r) := by
   unfold afterLoad
-  rw [pauseCheck_plain]
+  rw [pauseCheck_dead hs r b h]
 
 theorem handle_ends (r : Requestor.State) (n : LNode) (rest : LT) (res : Result) (e' : RErr) (e : LoadErr)
     (hc : r.ctxCancelled = false) (herr : res.err = some e) (he : endsTraversal n res = some e') :
@@ -42,25 +56,65 @@ theorem handle_ends (r : Requestor.State) (n : LNode) (rest : LT) (res : Result)
   | nothingLeft => simp only at he ⊢; cases he; rfl
   | retryNone => simp only at he ⊢; cases he; rfl
 
-/-- with no pause in sight, `afterResult` is `handle` followed by the continuation -/
-theorem afterResult_plain (r : Requestor.State) (n : LNode) (rest : LT) (res : Result) (ev1 : List Ev)
-    (cont : PState → PState × List Ev) :
-    afterResult (plainOf r) n rest res ev1 cont =
+theorem finish_nBlocks (r : Requestor.State) : (finish r).1.nBlocks = r.nBlocks := by
+  unfold finish; rfl
+
+theorem failWith_nBlocks (r : Requestor.State) (e : RErr) : (failWith r e).1.nBlocks = r.nBlocks := by
+  unfold failWith; simp only; rw [finish_nBlocks]
+
+/-- `handle` never decreases the block count, and increases it after a load answered with data -/
+theorem handle_nBlocks (r : Requestor.State) (n : LNode) (rest : LT) (res : Result) :
+    r.nBlocks ≤ (handle r n rest res).1.nBlocks ∧
+    (res.err = none → (handle r n rest res).1.nBlocks = r.nBlocks + 1) := by
+  unfold handle
+  cases herr : res.err with
+  | none => simp
+  | some e =>
+    simp only
+    split
+    · rw [finish_nBlocks]; exact ⟨Nat.le_refl _, fun h => by cases h⟩
+    · cases e with
+      | missing c p =>
+        simp only
+        split
+        · rw [failWith_nBlocks]; exact ⟨Nat.le_refl _, fun h => by cases h⟩
+        · exact ⟨Nat.le_refl _, fun h => by cases h⟩
+      | incorrect a b p => simp only; rw [failWith_nBlocks]; exact ⟨Nat.le_refl _, fun h => by cases h⟩
+      | extraData => simp only; rw [failWith_nBlocks]; exact ⟨Nat.le_refl _, fun h => by cases h⟩
+      | nothingLeft => simp only; rw [failWith_nBlocks]; exact ⟨Nat.le_refl _, fun h => by cases h⟩
+      | retryNone => simp only; rw [failWith_nBlocks]; exact ⟨Nat.le_refl _, fun h => by cases h⟩
+
+theorem loadNode_nBlocks (r : Requestor.State) (n : LNode) : (loadNode r n).1.nBlocks = r.nBlocks := by
+  unfold loadNode
+  split
+  · rfl
+  · split
+    · split <;> rfl
+    · rfl
+
+theorem DeadAt.mono {hs : List Nat} {r r' : Requestor.State} (h : DeadAt hs r) (hle : r.nBlocks ≤ r'.nBlocks) :
+    DeadAt hs r' := fun j hj => Nat.le_trans (h j hj) hle
+
+/-- with every hook pause behind and no pause requested, `afterResult` is `handle` followed by the
+    continuation -/
+theorem afterResult_dead (hs : List Nat) (r : Requestor.State) (hd : DeadAt hs r) (n : LNode) (rest : LT)
+    (res : Result) (ev1 : List Ev) (cont : PState → PState × List Ev) :
+    afterResult (hooked hs r) n rest res ev1 cont =
       match handle r n rest res with
-      | (r2, evs, true) => ((cont (plainOf r2)).1, ev1 ++ evs ++ (cont (plainOf r2)).2)
-      | (r2, evs, false) => (plainOf r2, ev1 ++ evs) := by
+      | (r2, evs, true) => ((cont (hooked hs r2)).1, ev1 ++ evs ++ (cont (hooked hs r2)).2)
+      | (r2, evs, false) => (hooked hs r2, ev1 ++ evs) := by
   unfold afterResult
-  cases hew : endsWith (plainOf r) n res with
+  cases hew : endsWith (hooked hs r) n res with
   | some ee =>
     obtain ⟨e', e⟩ := ee
     simp only
-    rw [pauseCheck_plain]
+    rw [pauseCheck_dead hs r false (fun h => by cases h)]
     simp only
     unfold endsWith at hew
     by_cases hc : r.ctxCancelled = true
-    · simp [plainOf, hc] at hew
+    · simp [hooked, hc] at hew
     · have hc' : r.ctxCancelled = false := by simpa using hc
-      simp only [plainOf, hc', Bool.false_eq_true, if_false] at hew
+      simp only [hooked, hc', Bool.false_eq_true, if_false] at hew
       cases herr : res.err with
       | none => simp [herr] at hew
       | some e0 =>
@@ -72,116 +126,231 @@ theorem afterResult_plain (r : Requestor.State) (n : LNode) (rest : LT) (res : R
           obtain ⟨h1, h2⟩ := hew
           subst h1; subst h2
           rw [handle_ends r n rest res e1 e0 hc' herr het]
-          simp only [List.append_assoc, plainOf]
+          simp only [List.append_assoc, hooked]
   | none =>
     simp only
     show (match handle r n rest res with
-      | (r2, evs, true) => ((afterLoad (plainOf r2) res.err.isNone cont).1, ev1 ++ evs ++ (afterLoad (plainOf r2) res.err.isNone cont).2)
-      | (r2, evs, false) => (plainOf r2, ev1 ++ evs)) = _
+      | (r2, evs, true) => ((afterLoad (hooked hs r2) res.err.isNone cont).1, ev1 ++ evs ++ (afterLoad (hooked hs r2) res.err.isNone cont).2)
+      | (r2, evs, false) => (hooked hs r2, ev1 ++ evs)) = _
+    have hnb := handle_nBlocks r n rest res
     cases hh : handle r n rest res with
     | mk r2 rest2 =>
       obtain ⟨evs, go⟩ := rest2
+      rw [hh] at hnb
       cases go with
-      | true => simp only; rw [afterLoad_plain]
+      | true =>
+        simp only
+        rw [afterLoad_dead]
+        intro hb
+        have herr : res.err = none := by
+          cases hr : res.err with
+          | none => rfl
+          | some _ => simp [hr] at hb
+        have := hnb.2 herr
+        simp only at this
+        intro hmem
+        have := hd _ hmem
+        omega
       | false => rfl
 
-theorem driveP_plain : ∀ (fuel : Nat) (r : Requestor.State),
-    driveP fuel (plainOf r) = (plainOf (drive fuel r).1, (drive fuel r).2) := by
+theorem driveP_dead (hs : List Nat) : ∀ (fuel : Nat) (r : Requestor.State), DeadAt hs r →
+    driveP fuel (hooked hs r) = (hooked hs (drive fuel r).1, (drive fuel r).2) := by
   intro fuel
   induction fuel with
-  | zero => intro r; rfl
+  | zero => intro r _; rfl
   | succ fuel ih =>
-    intro r
+    intro r hd
     rw [driveP, drive_succ]
     by_cases hg : (r.phase != Phase.running) = true
-    · have : ((plainOf r).R.phase != Phase.running || (plainOf r).paused) = true := by simp [plainOf, hg]
+    · have : ((hooked hs r).R.phase != Phase.running || (hooked hs r).paused) = true := by simp [hooked, hg]
       rw [if_pos this, if_pos hg]
-    · have : ((plainOf r).R.phase != Phase.running || (plainOf r).paused) = false := by
-        simp only [plainOf, Bool.or_false]; simpa using hg
+    · have : ((hooked hs r).R.phase != Phase.running || (hooked hs r).paused) = false := by
+        simp only [hooked, Bool.or_false]; simpa using hg
       rw [if_neg (by simp [this]), if_neg hg]
       show (match r.todo with
-        | [] => (plainOf (finish r).1, (finish r).2)
+        | [] => (hooked hs (finish r).1, (finish r).2)
         | n :: rest =>
           match loadNode r n with
-          | (r1, ev1, none) => (plainOf r1, ev1)
-          | (r1, ev1, some res) => afterResult (plainOf r1) n rest res ev1 (driveP fuel)) = _
+          | (r1, ev1, none) => (hooked hs r1, ev1)
+          | (r1, ev1, some res) => afterResult (hooked hs r1) n rest res ev1 (driveP fuel)) = _
       cases htodo : r.todo with
       | nil => rfl
       | cons n rest =>
         simp only
+        have hl := loadNode_nBlocks r n
         cases hln : loadNode r n with
         | mk r1 rest1 =>
           obtain ⟨ev1, ores⟩ := rest1
+          rw [hln] at hl
+          simp only at hl
+          have hd1 : DeadAt hs r1 := hd.mono (by rw [hl]; exact Nat.le_refl _)
           cases ores with
           | none => rfl
           | some res =>
             simp only
-            rw [afterResult_plain]
+            rw [afterResult_dead hs r1 hd1]
+            have hnb := handle_nBlocks r1 n rest res
             cases hh : handle r1 n rest res with
             | mk r2 rest2 =>
               obtain ⟨evs, go⟩ := rest2
+              rw [hh] at hnb
               cases go with
               | true =>
                 simp only
-                rw [ih r2]
+                rw [ih r2 (hd1.mono hnb.1)]
               | false => rfl
 
-theorem resumeP_plain (r : Requestor.State) :
-    resumeP (plainOf r) = (plainOf (Requestor.resume r).1, (Requestor.resume r).2) := by
+theorem driveP_plain (fuel : Nat) (r : Requestor.State) :
+    driveP fuel (plainOf r) = (plainOf (drive fuel r).1, (drive fuel r).2) :=
+  driveP_dead [] fuel r (DeadAt.nil r)
+
+theorem resumeP_dead (hs : List Nat) (r : Requestor.State) (hd : DeadAt hs r) :
+    resumeP (hooked hs r) = (hooked hs (Requestor.resume r).1, (Requestor.resume r).2) := by
+  obtain ⟨L, todo, phase, rs, nb, us, cc, te⟩ := r
   unfold resumeP Requestor.resume
-  show (match Loader.wake r.L with
-    | (l1, some res) =>
-      match r.todo with
-      | n :: rest => afterResult (plainOf { r with L := l1 }) n rest res [] (fun s' => driveP (fuelFor s'.R) s')
-      | [] => (plainOf { r with L := l1 }, [])
-    | (l1, none) => (plainOf { r with L := l1 }, [])) = _
-  cases hw : Loader.wake r.L with
+  simp only [hooked]
+  cases hw : Loader.wake L with
   | mk l1 ores =>
     cases ores with
     | none => rfl
     | some res =>
       simp only
-      cases htodo : r.todo with
+      cases todo with
       | nil => rfl
       | cons n rest =>
         simp only
-        rw [afterResult_plain]
-        generalize handle _ n rest res = hd
-        obtain ⟨r2, evs, go⟩ := hd
+        have hd1 : DeadAt hs ⟨l1, n :: rest, phase, rs, nb, us, cc, te⟩ := hd
+        show afterResult (hooked hs ⟨l1, n :: rest, phase, rs, nb, us, cc, te⟩) n rest res []
+          (fun s' => driveP (fuelFor s'.R) s') = _
+        rw [afterResult_dead hs _ hd1]
+        have hnb := handle_nBlocks ⟨l1, n :: rest, phase, rs, nb, us, cc, te⟩ n rest res
+        generalize handle _ n rest res = hdl at hnb
+        obtain ⟨r2, evs, go⟩ := hdl
         cases go with
         | true =>
           simp only
-          rw [driveP_plain]
-          simp only [List.nil_append]
-          rfl
-        | false => simp only [List.nil_append]
+          rw [driveP_dead hs _ r2 (hd1.mono hnb.1)]
+          simp only [List.nil_append, hooked]
+        | false => simp only [List.nil_append, hooked]
 
-theorem deliver_plain (r : Requestor.State) (f k : Bool) (st : Nat) (md : List (Cid × Action))
-    (bl : List (Cid × Blk)) :
-    deliver (plainOf r) f k st md bl = (plainOf (message r f k st md bl).1, (message r f k st md bl).2) := by
+theorem deliver_dead (hs : List Nat) (r : Requestor.State) (hd : DeadAt hs r) (f k : Bool) (st : Nat)
+    (md : List (Cid × Action)) (bl : List (Cid × Blk)) :
+    deliver (hooked hs r) f k st md bl = (hooked hs (message r f k st md bl).1, (message r f k st md bl).2) := by
   unfold deliver message
   by_cases hg : (r.phase != Phase.running || !f || !k) = true
-  · have : ((plainOf r).R.phase != Phase.running || !f || !k) = true := hg
+  · have : ((hooked hs r).R.phase != Phase.running || !f || !k) = true := hg
     rw [if_pos this, if_pos hg]
-  · have : ¬ ((plainOf r).R.phase != Phase.running || !f || !k) = true := hg
+  · have : ¬ ((hooked hs r).R.phase != Phase.running || !f || !k) = true := hg
     rw [if_neg this, if_neg hg]
-    exact resumeP_plain (applyStatus { r with L := Loader.ingest r.L md bl } st)
+    have hd1 : DeadAt hs (applyStatus { r with L := Loader.ingest r.L md bl } st) := by
+      intro j hj
+      have := hd j hj
+      unfold applyStatus
+      split
+      · split <;> exact this
+      · exact this
+    exact resumeP_dead hs (applyStatus { r with L := Loader.ingest r.L md bl } st) hd1
 
 def toOp (m : Requestor.Msg) : PauseResume.Op :=
   .msg { fromPeer0 := m.fromPeer0, known := m.known, status := m.status, md := m.md, blocks := m.blocks }
 
-theorem run_plain : ∀ (msgs : List Requestor.Msg) (r : Requestor.State),
-    PauseResume.run (plainOf r) (msgs.map toOp) = (plainOf (feed r msgs).1, (feed r msgs).2) := by
+/-- `resume` / `message` never decrease the block count -/
+theorem drive_nBlocks : ∀ (fuel : Nat) (r : Requestor.State), r.nBlocks ≤ (drive fuel r).1.nBlocks := by
+  intro fuel
+  induction fuel with
+  | zero => intro r; exact Nat.le_refl _
+  | succ fuel ih =>
+    intro r
+    rw [drive_succ]
+    split
+    · exact Nat.le_refl _
+    · split
+      · rw [finish_nBlocks]; exact Nat.le_refl _
+      · rename_i n rest _
+        have hl := loadNode_nBlocks r n
+        cases hln : loadNode r n with
+        | mk r1 rest1 =>
+          obtain ⟨ev1, ores⟩ := rest1
+          rw [hln] at hl
+          simp only at hl
+          cases ores with
+          | none => simp only; rw [hl]; exact Nat.le_refl _
+          | some res =>
+            simp only
+            have hnb := handle_nBlocks r1 n rest res
+            cases hh : handle r1 n rest res with
+            | mk r2 rest2 =>
+              obtain ⟨evs, go⟩ := rest2
+              rw [hh] at hnb
+              cases go with
+              | true =>
+                simp only
+                have := ih r2
+                have h1 := hnb.1
+                simp only at h1
+                omega
+              | false =>
+                simp only
+                have h1 := hnb.1
+                simp only at h1
+                omega
+
+theorem message_nBlocks (r : Requestor.State) (f k : Bool) (st : Nat) (md : List (Cid × Action))
+    (bl : List (Cid × Blk)) : r.nBlocks ≤ (message r f k st md bl).1.nBlocks := by
+  unfold message
+  split
+  · exact Nat.le_refl _
+  · have h0 : (applyStatus { r with L := Loader.ingest r.L md bl } st).nBlocks = r.nBlocks := by
+      unfold applyStatus
+      split
+      · split <;> rfl
+      · rfl
+    generalize applyStatus { r with L := Loader.ingest r.L md bl } st = r0 at h0
+    obtain ⟨L0, todo0, phase0, rs0, nb0, us0, cc0, te0⟩ := r0
+    simp only at h0
+    subst h0
+    unfold Requestor.resume
+    simp only
+    cases hw : Loader.wake L0 with
+    | mk l1 ores =>
+      cases ores with
+      | none => exact Nat.le_refl _
+      | some res =>
+        simp only
+        cases todo0 with
+        | nil => exact Nat.le_refl _
+        | cons n rest =>
+          simp only
+          have hnb := handle_nBlocks ⟨l1, n :: rest, phase0, rs0, r.nBlocks, us0, cc0, te0⟩ n rest res
+          generalize handle _ n rest res = hdl at hnb
+          obtain ⟨r2, evs, go⟩ := hdl
+          have h1 := hnb.1
+          simp only at h1
+          cases go with
+          | true =>
+            have := drive_nBlocks (fuelFor r2) r2
+            show r.nBlocks ≤ (drive (fuelFor r2) r2).1.nBlocks
+            omega
+          | false =>
+            show r.nBlocks ≤ r2.nBlocks
+            omega
+
+theorem run_dead (hs : List Nat) : ∀ (msgs : List Requestor.Msg) (r : Requestor.State), DeadAt hs r →
+    PauseResume.run (hooked hs r) (msgs.map toOp) = (hooked hs (feed r msgs).1, (feed r msgs).2) := by
   intro msgs
   induction msgs with
-  | nil => intro r; rfl
+  | nil => intro r _; rfl
   | cons m rest ih =>
-    intro r
+    intro r hd
     simp only [List.map_cons, PauseResume.run, toOp, PauseResume.step, feed]
-    rw [deliver_plain]
+    rw [deliver_dead hs r hd]
     simp only
-    have := ih (message r m.fromPeer0 m.known m.status m.md m.blocks).1
+    have := ih (message r m.fromPeer0 m.known m.status m.md m.blocks).1 (hd.mono (message_nBlocks _ _ _ _ _ _))
     rw [this]
+
+theorem run_plain (msgs : List Requestor.Msg) (r : Requestor.State) :
+    PauseResume.run (plainOf r) (msgs.map toOp) = (plainOf (feed r msgs).1, (feed r msgs).2) :=
+  run_dead [] msgs r (DeadAt.nil r)
 
 /-- **conservative extension.**  Without hook pauses and Pause calls, the pause/resume model is the
     requestor model: same reports, same final requestor state. -/
